@@ -11,34 +11,32 @@ Local Open Scope Z_scope.
 (* GraphSON 2 and 3: for every supported value tree (any depth, any width), the reader applied to what the serializer
    wrote gives back the equal value (norm: a blob comes back as bytearray, a datetime-subclass instance as datetime). *)
 Theorem C40_roundtrip_23 :
-  forall (D Dt Tm Dtm U Geo : Type) (dec_str : D -> list Z) (dec_parse : list Z -> option D) (uuid_str : U -> list Z)
+  forall (D Dt Tm Dtm U : Type) (dec_str : D -> list Z) (dec_parse : list Z -> option D) (uuid_str : U -> list Z)
          (uuid_parse : list Z -> option U) (date_iso : Dt -> list Z) (strptime_date : list Z -> option Dt)
          (time_fmt : Tm -> list Z) (strptime_hm strptime_hms strptime_hmsf : list Z -> option Tm) (dtm_iso : Dtm -> list Z)
-         (strptime_frac strptime_nofrac : list Z -> option Dtm) (geo_kind : Geo -> geomkind) (wkt_str : Geo -> list Z)
-         (from_wkt : geomkind -> list Z -> option Geo) (geqb : gval D Dt Tm Dtm U Geo -> gval D Dt Tm Dtm U Geo -> bool),
-    leaf_laws D Dt Tm Dtm U Geo dec_str dec_parse uuid_str uuid_parse date_iso strptime_date time_fmt strptime_hm strptime_hms
-              strptime_hmsf dtm_iso strptime_frac strptime_nofrac geo_kind wkt_str from_wkt ->
-    forall (ver : version) (v : gval D Dt Tm Dtm U Geo), ver <> V1 ->
-    supported D Dt Tm Dtm U Geo geqb ver v ->
-    exists j, serialize23 D Dt Tm Dtm U Geo dec_str uuid_str date_iso time_fmt dtm_iso geo_kind wkt_str ver v = Some j /\
-              deserialize23 D Dt Tm Dtm U Geo dec_parse uuid_parse strptime_date strptime_hm strptime_hms strptime_hmsf
-                            strptime_frac strptime_nofrac from_wkt geqb ver j = Some (norm D Dt Tm Dtm U Geo v).
+         (strptime_frac strptime_nofrac : list Z -> option Dtm) (geqb : gval D Dt Tm Dtm U -> gval D Dt Tm Dtm U -> bool),
+    leaf_laws D Dt Tm Dtm U dec_str dec_parse uuid_str uuid_parse date_iso strptime_date time_fmt strptime_hm strptime_hms
+              strptime_hmsf dtm_iso strptime_frac strptime_nofrac ->
+    forall (ver : version) (v : gval D Dt Tm Dtm U), ver <> V1 ->
+    supported D Dt Tm Dtm U geqb ver v ->
+    exists j, serialize23 D Dt Tm Dtm U dec_str uuid_str date_iso time_fmt dtm_iso ver v = Some j /\
+              deserialize23 D Dt Tm Dtm U dec_parse uuid_parse strptime_date strptime_hm strptime_hms strptime_hmsf
+                            strptime_frac strptime_nofrac geqb ver j = Some (norm D Dt Tm Dtm U v).
 Proof. exact roundtrip23. Qed.
 Print Assumptions C40_roundtrip_23.
 
 (* GraphSON 1 (untyped on the wire: the caller names the type, here the serializer chosen for the value): scalars *)
 Theorem C40_roundtrip_1 :
-  forall (D Dt Tm Dtm U Geo : Type) (dec_str : D -> list Z) (dec_parse : list Z -> option D) (uuid_str : U -> list Z)
+  forall (D Dt Tm Dtm U : Type) (dec_str : D -> list Z) (dec_parse : list Z -> option D) (uuid_str : U -> list Z)
          (uuid_parse : list Z -> option U) (date_iso : Dt -> list Z) (strptime_date : list Z -> option Dt)
          (time_fmt : Tm -> list Z) (strptime_hm strptime_hms strptime_hmsf : list Z -> option Tm) (dtm_iso : Dtm -> list Z)
-         (strptime_frac strptime_nofrac : list Z -> option Dtm) (geo_kind : Geo -> geomkind) (wkt_str : Geo -> list Z)
-         (from_wkt : geomkind -> list Z -> option Geo),
-    leaf_laws D Dt Tm Dtm U Geo dec_str dec_parse uuid_str uuid_parse date_iso strptime_date time_fmt strptime_hm strptime_hms
-              strptime_hmsf dtm_iso strptime_frac strptime_nofrac geo_kind wkt_str from_wkt ->
-    forall v : gval D Dt Tm Dtm U Geo, supported1 D Dt Tm Dtm U Geo v ->
-    exists j, serialize1 D Dt Tm Dtm U Geo dec_str uuid_str date_iso time_fmt dtm_iso geo_kind wkt_str v = Some j /\
-              deserialize1 D Dt Tm Dtm U Geo dec_parse uuid_parse strptime_date strptime_hm strptime_hms strptime_hmsf strptime_frac
-                           strptime_nofrac from_wkt (serializer_of D Dt Tm Dtm U Geo geo_kind V1 v) j = Some (norm D Dt Tm Dtm U Geo v).
+         (strptime_frac strptime_nofrac : list Z -> option Dtm),
+    leaf_laws D Dt Tm Dtm U dec_str dec_parse uuid_str uuid_parse date_iso strptime_date time_fmt strptime_hm strptime_hms
+              strptime_hmsf dtm_iso strptime_frac strptime_nofrac ->
+    forall v : gval D Dt Tm Dtm U, supported1 D Dt Tm Dtm U v ->
+    exists j, serialize1 D Dt Tm Dtm U dec_str uuid_str date_iso time_fmt dtm_iso v = Some j /\
+              deserialize1 D Dt Tm Dtm U dec_parse uuid_parse strptime_date strptime_hm strptime_hms strptime_hmsf strptime_frac
+                           strptime_nofrac (serializer_of D Dt Tm Dtm U V1 v) j = Some (norm D Dt Tm Dtm U v).
 Proof. exact roundtrip1. Qed.
 Print Assumptions C40_roundtrip_1.
 
@@ -51,6 +49,12 @@ Print Assumptions C40_duration_roundtrip.
 Theorem C40_base64_roundtrip : forall bs : list Z, Forall (fun b => 0 <= b < 256) bs -> b64_decode (b64_encode bs) = Some bs.
 Proof. exact b64_roundtrip. Qed.
 Print Assumptions C40_base64_roundtrip.
+
+(* every Point / LineString / Polygon (any number of interior rings) survives its WKT text; a polygon that prints as
+   POLYGON EMPTY must not carry interior rings *)
+Theorem C40_geometry_roundtrip : forall g : geom, geom_ok g -> from_wkt (geom_kind g) (geom_wkt g) = Some g.
+Proof. exact geom_roundtrip. Qed.
+Print Assumptions C40_geometry_roundtrip.
 
 (* dispatch: an instance of a datetime subclass is written by the Instant serializer in every version; ints are Int32
    inside [MIN_INT32, MAX_INT32] (the driver's own bounds) and Int64 outside *)
@@ -89,24 +93,23 @@ Definition nv_str (z : Z) : list Z := [z].
 Definition nv_parse (s : list Z) : option Z := match s with [z] => Some z | _ => None end.
 Definition nv_parse_z (s : list Z) : option Z := match s with [z; 90] => Some z | _ => None end.
 Definition nv_none (s : list Z) : option Z := None.
-Definition nv_kind (g : Z) : geomkind := GPoint.
-Definition nv_wkt (k : geomkind) (s : list Z) : option Z := match k with GPoint => nv_parse s | _ => None end.
-Definition nv_geqb (a b : gval Z Z Z Z Z Z) : bool := false.
+Definition nv_geqb (a b : gval Z Z Z Z Z) : bool := false.
 
 Example C40_nonvacuous_laws :
-  leaf_laws Z Z Z Z Z Z nv_str nv_parse nv_str nv_parse nv_str nv_parse nv_str nv_none nv_none nv_parse nv_str nv_parse_z nv_none
-            nv_kind nv_str nv_wkt.
+  leaf_laws Z Z Z Z Z nv_str nv_parse nv_str nv_parse nv_str nv_parse nv_str nv_none nv_none nv_parse nv_str nv_parse_z nv_none.
 Proof. repeat split; intros; try reflexivity. left. reflexivity. Qed.
 
 Example C40_nonvacuous :
-  let v := GList Z Z Z Z Z Z
-             [GTuple Z Z Z Z Z Z [GInt Z Z Z Z Z Z 5; GTimedelta Z Z Z Z Z Z (-1500000); GBlob Z Z Z Z Z Z BBytes [1; 2; 255]];
-              GSet Z Z Z Z Z Z [GInt Z Z Z Z Z Z 1099511627776; GStr Z Z Z Z Z Z [97]];
-              GDict Z Z Z Z Z Z [(GStr Z Z Z Z Z Z [107], GDatetime Z Z Z Z Z Z 7 true)]] in
-  supported Z Z Z Z Z Z nv_geqb V3 v /\
-  match serialize23 Z Z Z Z Z Z nv_str nv_str nv_str nv_str nv_str nv_kind nv_str V3 v with
-  | Some j => deserialize23 Z Z Z Z Z Z nv_parse nv_parse nv_parse nv_none nv_none nv_parse nv_parse_z nv_none nv_wkt nv_geqb V3 j
-              = Some (norm Z Z Z Z Z Z v)
+  let v := GList Z Z Z Z Z
+             [GTuple Z Z Z Z Z [GInt Z Z Z Z Z 5; GTimedelta Z Z Z Z Z (-1500000); GBlob Z Z Z Z Z BBytes [1; 2; 255]];
+              GSet Z Z Z Z Z [GInt Z Z Z Z Z 1099511627776; GStr Z Z Z Z Z [97]];
+              GDict Z Z Z Z Z [(GStr Z Z Z Z Z [107], GDatetime Z Z Z Z Z 7 true); (GStr Z Z Z Z Z [108], GDatetimeAware Z Z Z Z Z 9 8)];
+              GGeom Z Z Z Z Z (GeoPoly [((0, 0), (0, 0)); ((1, 2), (0, 0)); ((0, 0), (1, 2)); ((0, 0), (0, 0))]
+                                       [[((1, 0), (1, 0)); ((3, -1), (1, 0)); ((1, 0), (3, -1)); ((1, 0), (1, 0))]])] in
+  supported Z Z Z Z Z nv_geqb V3 v /\
+  match serialize23 Z Z Z Z Z nv_str nv_str nv_str nv_str nv_str V3 v with
+  | Some j => deserialize23 Z Z Z Z Z nv_parse nv_parse nv_parse nv_none nv_none nv_parse nv_parse_z nv_none nv_geqb V3 j
+              = Some (norm Z Z Z Z Z v)
   | None => False
   end.
 Proof.
@@ -119,10 +122,10 @@ Qed.
    when a deserialised member / key is unhashable (bytearray) ---- *)
 Definition C40_full_statement : Prop :=
   forall bs : list Z, Forall (fun b => 0 <= b < 256) bs ->
-  let v := GSet Z Z Z Z Z Z [GBlob Z Z Z Z Z Z BBytes bs] in
-  exists j, serialize23 Z Z Z Z Z Z nv_str nv_str nv_str nv_str nv_str nv_kind nv_str V3 v = Some j /\
-            deserialize23 Z Z Z Z Z Z nv_parse nv_parse nv_parse nv_none nv_none nv_parse nv_parse_z nv_none nv_wkt nv_geqb V3 j
-            = Some (norm Z Z Z Z Z Z v).
+  let v := GSet Z Z Z Z Z [GBlob Z Z Z Z Z BBytes bs] in
+  exists j, serialize23 Z Z Z Z Z nv_str nv_str nv_str nv_str nv_str V3 v = Some j /\
+            deserialize23 Z Z Z Z Z nv_parse nv_parse nv_parse nv_none nv_none nv_parse nv_parse_z nv_none nv_geqb V3 j
+            = Some (norm Z Z Z Z Z v).
 
 (* {b'\x00'}: written as g:Set [gx:ByteBuffer "AA=="], the reader raises TypeError (unhashable bytearray) *)
 Theorem C40_set_of_blobs_refuted : ~ C40_full_statement.
